@@ -32,10 +32,12 @@ C13 ==
   \* exactly the remaining items, in order; Empty() takes part in separation
   /\ (E.rv.status = "nil" /\ E.vidents # E.idents) => Report("C13", "items lost or reordered " \o E.name)
   /\ (E.rv.status = "nil" /\ E.framed /\ E.vnsep # E.nsep) => Report("C13", "separators " \o E.name)
+  /\ (E.again # "same") => Report("C13", "the same list renders differently the second time " \o E.name)
 
+CfgAlias(al) == IF al = "" THEN Cfg0 ELSE [Cfg0 EXCEPT !.hints = [p \in {"x/d"} |-> Def(al, TRUE)]]
 C16 ==
   /\ E.ev = "c16"
-  /\ Drift(<<E.otree>>, E.rv, "c16")
+  /\ (E.rv.status = "nil" /\ Flat(RenderFile(CfgAlias(E.alias), Fc0, <<E.otree>>, <<>>, <<"x/d", "y/d">>)[1]) # E.rv.raw) => Report("DRIFT", "c16")
   /\ (E.rv.status # "nil" \/ E.rv.fstatus # "nil") => Report("C16", "render fails")
   /\ (E.parsed /\ E.got # E.expected) => Report(IF E.known = "" THEN "C16" ELSE "C16", "pairs " \o E.known)
   /\ (E.parsed /\ ~E.sorted) => Report("C16", "order " \o E.known)
